@@ -113,17 +113,34 @@ pub fn build_merged<S: Shape>(specs: &[TlSpec]) -> MergedTimeline<S::Tl> {
 }
 
 pub fn build_anim<S: Shape>(spec: &AnimSpec) -> Anim<S> {
-    let mut b = StateAnimatorBuilder::<St, S::Tl>::new().from_state(STATES[spec.initial_state].clone());
-    if let Some(v) = &spec.initial_values {
-        b = b.from_values(S::from_vals(v));
+    // The builder's calls commute; the order they are made in varies with the specification.
+    let n_tl: usize = spec.states.iter().map(|s| s.len()).sum();
+    let (initial_last, reverse_order) = (n_tl % 2 == 1, (n_tl / 2) % 2 == 1);
+    let initial = |mut b: StateAnimatorBuilder<St, S::Tl>| {
+        if let Some(v) = &spec.initial_values {
+            b = b.from_values(S::from_vals(v));
+        }
+        b.from_state(STATES[spec.initial_state].clone())
+    };
+    let mut b = StateAnimatorBuilder::<St, S::Tl>::new();
+    if !initial_last {
+        b = initial(b);
     }
-    for (i, st) in spec.states.iter().enumerate() {
+    let mut order: Vec<usize> = (0..spec.states.len()).collect();
+    if reverse_order {
+        order.reverse();
+    }
+    for i in order {
+        let st = &spec.states[i];
         match st.len() {
             0 => {}
             // a single timeline goes in as the plain timeline (TimelineOrBuilder for the timeline)
             1 if !spec.force_merged => b = b.on(STATES[i].clone(), S::build_tl(&st[0])),
             _ => b = b.on(STATES[i].clone(), build_merged::<S>(st)),
         }
+    }
+    if initial_last {
+        b = initial(b);
     }
     b.build()
 }
